@@ -174,5 +174,6 @@ mut('benign-own-random-generator', 'C16', G, "import random", "import random\r\n
           (G, "        prob_target = random.random() * total_prob", "        prob_target = RNG.random() * total_prob", 0),
           (G, "            prob_target = random.random() * total_prob", "            prob_target = RNG.random() * total_prob", 0),
           ('lib_guesser/honeyword_session.py', "            random.seed(self.random_seed)", "            random.seed(self.random_seed); __import__('lib_guesser.pcfg_grammar', fromlist=['RNG']).RNG.seed(self.random_seed)", 0)])
+mut('benign-c20-atomic-write', 'C20', ER, "    with open(grammar_file, 'w') as grammar_fp:\n        print('Done editing, writing back results.')\n        for line in grammar:\n            grammar_fp.write(line)\n", "    with open(grammar_file + '.tmp', 'w') as grammar_fp:\n        print('Done editing, writing back results.')\n        for line in grammar:\n            grammar_fp.write(line)\n    os.replace(grammar_file + '.tmp', grammar_file)\n", benign=True, desc='grammar.txt written through a scratch file and renamed into place: no other file of the ruleset is touched')
 json.dump(M, open(os.path.join(os.path.dirname(os.path.abspath(__file__)), 'mutants.json'), 'w'), indent=1)
 print(len(M), 'mutants')
